@@ -179,14 +179,53 @@ pub fn bind_outcome(c: &BindCase) -> Outcome {
                     }
                     Op::UnbindUnknown(k) => {
                         classes.push("failed-op".into());
-                        let e: Endpoint = if !gone.is_empty() && *k % 2 == 0 {
+                        // never bound / unbound before / NEAR MISSES of a live bind: same port under
+                        // another address or a host name, same address under another port, an ipc
+                        // path that extends a bound one
+                        let mut near: Option<(String, usize)> = None;
+                        let e: Endpoint = if !gone.is_empty() && *k % 6 == 0 {
                             gone[*k % gone.len()].clone()
+                        } else if *k % 6 >= 2 && !live.is_empty() {
+                            let li = (*k / 6) % live.len();
+                            let l = &live[li];
+                            let text = match (&l.endpoint, l.transport) {
+                                (_, Transport::TcpLocalhost) => None,
+                                (Endpoint::Tcp(host, port), _) => Some(match *k % 6 {
+                                    2 => format!("tcp://192.0.2.1:{}", port),
+                                    3 => format!("tcp://unbound.invalid:{}", port),
+                                    4 => format!("tcp://{}:{}", if l.transport == Transport::TcpV6 { "127.0.0.1".to_string() } else { "[::1]".to_string() }, port),
+                                    _ => format!("tcp://{}:{}", if l.transport == Transport::TcpV6 { format!("[{}]", host) } else { host.to_string() }, port ^ 1),
+                                }),
+                                (Endpoint::Ipc(Some(p)), _) => Some(format!("ipc://{}x", p.display())),
+                                _ => None,
+                            };
+                            match text.and_then(|t| t.parse::<Endpoint>().ok().map(|e| (t, e))) {
+                                Some((t, e)) if !live.iter().any(|x| x.endpoint == e) => {
+                                    near = Some((t, li));
+                                    classes.push("unbind-near-miss-of-a-live-bind".into());
+                                    e
+                                }
+                                _ => "tcp://127.0.0.1:1".parse().unwrap(),
+                            }
                         } else {
                             "tcp://127.0.0.1:1".parse().unwrap()
                         };
                         match realnet::sock_unbind(&mut s, e.clone()).await {
                             Err(ZmqError::NoSuchBind(_)) => {}
-                            other => fail!(f, format!("C18/{}/unbind/unknown-endpoint-not-refused-with-NoSuchBind", who), "op {}: unbind({}) returned {:?}", opi, e, other.map_err(|e| format!("{:?}", e))),
+                            other => fail!(f, format!("C18/{}/unbind/unknown-endpoint-not-refused-with-NoSuchBind", who), "op {}: unbind({}) returned {:?} (bound: {:?})", opi, e, other.map_err(|e| format!("{:?}", e)), live.iter().map(|l| l.text.clone()).collect::<Vec<_>>()),
+                        }
+                        if let Some((t, li)) = near {
+                            // the bind it resembles is untouched
+                            match realnet::raw_connect(&live[li].text).await {
+                                Ok(mut rc) => {
+                                    if let Err(err) = rc.handshake(kind.a_compatible_peer(), None).await {
+                                        fail!(f, format!("C18/{}/unbind/failed-unbind-stops-a-listener", who), "op {}: after the refused unbind({}), {} no longer completes a handshake: {}", opi, t, live[li].text, err);
+                                    } else {
+                                        conns.push((rc, live[li].text.clone()));
+                                    }
+                                }
+                                Err(err) => fail!(f, format!("C18/{}/unbind/failed-unbind-stops-a-listener", who), "op {}: after the refused unbind({}), connecting to {} fails: {}", opi, t, live[li].text, err),
+                            }
                         }
                     }
                     Op::ConnectIn(k) => {
@@ -308,7 +347,7 @@ pub fn gen_bind(s: &mut Src<'_>) -> BindCase {
             1 => Op::BindDuplicate(s.below(8)),
             2 => Op::BindBadIpc,
             3 => Op::Unbind(s.below(8)),
-            4 => Op::UnbindUnknown(s.below(8)),
+            4 => Op::UnbindUnknown(s.below(48)),
             5 => Op::ConnectIn(s.below(8)),
             6 => Op::Exchange(s.below(8)),
             _ => Op::StallIn(s.below(8), s.pick(&[0usize, 1, 9, 10, 11, 12, 32, 63, 64, 65, 70, 1000])),
@@ -340,6 +379,13 @@ pub fn run(ctx: &Ctx) -> (Report, PropertyMeta) {
                         Op::BindBadIpc,
                         Op::ConnectIn(1),
                         Op::UnbindUnknown(1),
+                        Op::UnbindUnknown(2),
+                        Op::UnbindUnknown(3),
+                        Op::UnbindUnknown(4),
+                        Op::UnbindUnknown(5),
+                        Op::UnbindUnknown(6 + 2),
+                        Op::UnbindUnknown(6 + 3),
+                        Op::UnbindUnknown(6 + 5),
                         Op::Unbind(0),
                         Op::Exchange(0),
                         Op::Exchange(1),
@@ -357,7 +403,7 @@ pub fn run(ctx: &Ctx) -> (Report, PropertyMeta) {
         }
     }
     let r = run_cases(ctx, "bind", &cases, bind_outcome);
-    report.exhaustive_parts.push(format!("REP/PULL/ROUTER/PUB x 4 first transports x 2 second transports, fixed 19-op history touching every op kind: {} cases", cases.len()));
+    report.exhaustive_parts.push(format!("REP/PULL/ROUTER/PUB x 4 first transports x 2 second transports, fixed 27-op history touching every op kind: {} cases", cases.len()));
     report.merge(r);
     let n = t.pick(500, 10000);
     let r = run_random(ctx, "bind", n, 30..=60, gen_bind, bind_outcome);
@@ -370,10 +416,11 @@ pub fn run(ctx: &Ctx) -> (Report, PropertyMeta) {
     health(&mut report, "failed-op", total, 300);
     health_abs(&mut report, "exchange-on-connection-of-an-unbound-endpoint", 20);
     health_abs(&mut report, "unbind-with-a-handshake-pending", 30);
+    health_abs(&mut report, "unbind-near-miss-of-a-live-bind", 100);
 
     let meta = PropertyMeta {
         level: "exploration",
-        rule: "proptest operation sequences (length <= 15) on real REP, PULL, ROUTER and PUB sockets over {bind tcp://127.0.0.1:0, tcp://[::1]:0, tcp://localhost:0, ipc://<fresh path>; bind an endpoint that is already bound; bind an ipc path in a missing directory; unbind a bound endpoint; unbind a never-bound / already unbound endpoint; a raw client connects and completes the handshake; a raw client connects, sends a prefix of its handshake (0..all-but-one bytes) and stays silent; exchange a message on an established connection}, against a reference model of the bind set. Oracle: a successful bind returns an endpoint with a non-zero port whose text form parses back to it and is connectable; binds() equals the model after every operation; a failed bind changes nothing; unbind of a bound endpoint returns (within 5 s, also while connections to it are in the middle of their handshake) Ok, that endpoint refuses connections (IPC file gone) when it returns, every other bound endpoint still completes a handshake and established connections (including those made to the unbound endpoint) still carry a message; anything else fails with NoSuchBind. Non-trivial = an unbind while >= 2 binds exist, or a failed operation; distinct by sequence".into(),
+        rule: "proptest operation sequences (length <= 15) on real REP, PULL, ROUTER and PUB sockets over {bind tcp://127.0.0.1:0, tcp://[::1]:0, tcp://localhost:0, ipc://<fresh path>; bind an endpoint that is already bound; bind an ipc path in a missing directory; unbind a bound endpoint; unbind a never-bound / already unbound endpoint, including near misses of a live bind (its port under another address or under a host name, its address under another port, an ipc path extending a bound one); a raw client connects and completes the handshake; a raw client connects, sends a prefix of its handshake (0..all-but-one bytes) and stays silent; exchange a message on an established connection}, against a reference model of the bind set. Oracle: a successful bind returns an endpoint with a non-zero port whose text form parses back to it and is connectable; binds() equals the model after every operation; a failed bind changes nothing; unbind of a bound endpoint returns (within 5 s, also while connections to it are in the middle of their handshake) Ok, that endpoint refuses connections (IPC file gone) when it returns, every other bound endpoint still completes a handshake and established connections (including those made to the unbound endpoint) still carry a message; anything else fails with NoSuchBind. Non-trivial = an unbind while >= 2 binds exist, or a failed operation; distinct by sequence".into(),
         assumptions: vec![
             "'duplicate bind' uses literal-IP and ipc endpoints only: tcp://localhost:P can legally succeed twice (once per address family)".into(),
             "cases run on one thread and a connection that unexpectedly succeeds is retried 3 times (an unrelated process may be handed a just-released port)".into(),
